@@ -441,8 +441,8 @@ def run_C11(case):
             nq = len(base_final)
             rq = random.Random(case.get("seed", 0) ^ 0x5EED)
             between = [i + 1 for i, (name, _) in enumerate(base_final) if name.startswith("page_links(source)") or name.startswith("count_links (between")]
-            ks = set(rq.randrange(1, nq) for _ in range(2)) if nq > 2 else set()
-            ks.update(rq.sample(between, min(3, len(between))))
+            ks = set(rq.randrange(1, nq) for _ in range(1)) if nq > 2 else set()
+            ks.update(rq.sample(between, min(2, len(between))))
             for k in sorted(ks):
                 v = Track(cfg, backend)
                 tracks.append(v)
@@ -536,4 +536,7 @@ def gen_C11(rng, tier, seed):
                 rules.append([O.enc(a), rng.choice(["domain", "path1", "path2", "subdomain"])])
         clears.append({"pos": rng.randint(0, n), "default": rng.choice([None, "domain", "path1", "never", "empty"]), "rules": rules if rng.random() < 0.7 else None, "mem": rng.random() < 0.3})
     c["clears"] = clears
+    if any(o["op"] == "create_many" for o in c["ops"]):
+        # the restart positions are what matters here; keep the rest of the enumeration small
+        c["multi_restarts"], c["clears"] = [], clears[:1]
     return c
